@@ -93,6 +93,64 @@ def _check(H, W, single_cycle, prim):
     return None
 
 
+def structured_patterns(rng, H, W, count):
+    """Patterns likely to be valid trails: XOR of rectangle boundaries (crossings where rectangles cross), lattice walks,
+    each optionally with one flipped segment."""
+    segs = frame_segments(H, W)
+    index = {s: k for k, s in enumerate(segs)}
+
+    def seg(a, b):
+        return index[(a, b)] if (a, b) in index else index[(b, a)]
+    out = []
+    for _ in range(count):
+        act = [False] * len(segs)
+        r = rng.random()
+        if r < 0.6 and H >= 1 and W >= 1:
+            for _ in range(rng.randint(1, 3)):
+                y0 = rng.randint(0, H - 1)
+                y1 = rng.randint(y0 + 1, H)
+                x0 = rng.randint(0, W - 1)
+                x1 = rng.randint(x0 + 1, W)
+                for x in range(x0, x1):
+                    act[seg((y0, x), (y0, x + 1))] ^= True
+                    act[seg((y1, x), (y1, x + 1))] ^= True
+                for y in range(y0, y1):
+                    act[seg((y, x0), (y + 1, x0))] ^= True
+                    act[seg((y, x1), (y + 1, x1))] ^= True
+        else:
+            p = (rng.randint(0, H), rng.randint(0, W))
+            for _ in range(rng.randint(1, 2 * (H + W) + 2)):
+                nb = [(p[0] + dy, p[1] + dx) for dy, dx in ((0, 1), (1, 0), (0, -1), (-1, 0))
+                      if 0 <= p[0] + dy <= H and 0 <= p[1] + dx <= W]
+                q = rng.choice(nb)
+                act[seg(p, q)] = True
+                p = q
+        if rng.random() < 0.4 and segs:
+            k = rng.randrange(len(segs))
+            act[k] = not act[k]
+        out.append(tuple(act))
+    return out
+
+
+def _check_patterns(H, W, single_cycle, patterns):
+    from cspuz import graph as G
+    from cspuz.grid_frame import BoolGridFrame
+    st = {}
+
+    def builder(s):
+        fr = BoolGridFrame(s, H, W)
+        st["nf"] = len(s.variables)
+        return lambda: G.active_edges_connected_crossable(s, fr, single_cycle=single_cycle, use_graph_primitive=False)
+    decls, cs, base, _ = graphs.real_program(builder)
+    for pat in patterns:
+        fixed = {f"b{i}": pat[i] for i in range(st["nf"])}
+        want, _, _ = spec(H, W, pat, single_cycle)
+        sat = exprio.z3_solve(decls, cs, base, fixed) is not None
+        if sat != want:
+            return list(pat), ("sat", sat), ("expected", want)
+    return None
+
+
 def search(ctx, why, frames=None):
     found = {}
     frames = frames or ((0, 0), (1, 1), (1, 2), (2, 1)) + (((2, 2),) if not ctx.quick() else ())
@@ -109,9 +167,27 @@ def search(ctx, why, frames=None):
             if bad:
                 found[key] = Finding("crossable:" + key, f"active_edges_connected_crossable(single_cycle={sc}) on a {H}x{W} frame, segments={bad[0]}: {bad[1]} but {bad[2]}",
                                      {"H": H, "W": W, "single_cycle": sc, "pattern": bad[0]})
+    # larger frames (incl. wider-than-tall and taller-than-wide): structured patterns instead of all subsets
+    for (H, W) in ((2, 2), (2, 3), (3, 2), (3, 3), (2, 4), (4, 2)):
+        for sc in (False, True):
+            key = "cycle" if sc else "path"
+            if key in found:
+                continue
+            pats = structured_patterns(ctx.rng, H, W, ctx.n(60, 300))
+            try:
+                bad = _check_patterns(H, W, sc, pats)
+            except Exception as e:
+                bad = ("exception", core.err_name(e), str(e)[:300])
+            ctx.count("search:crossable-structured", len(pats))
+            if bad:
+                found[key] = Finding("crossable:" + key, f"active_edges_connected_crossable(single_cycle={sc}) on a {H}x{W} frame, segments={bad[0]}: {bad[1]} but {bad[2]}",
+                                     {"H": H, "W": W, "single_cycle": sc, "pattern": bad[0], "structured": True})
     return list(found.values())
 
 
 def replay(ctx, data):
-    bad = _check(data["H"], data["W"], data["single_cycle"], False)
+    if data.get("structured"):
+        bad = _check_patterns(data["H"], data["W"], data["single_cycle"], [tuple(data["pattern"])])
+    else:
+        bad = _check(data["H"], data["W"], data["single_cycle"], False)
     return Finding("crossable:replay", f"still fails: {bad}", data) if bad else None
